@@ -52,7 +52,12 @@ pub trait Record {
     fn variant_span(&self, header: &Header) -> io::Result<usize> {
         let start = self.variant_start().transpose()?.unwrap_or(Position::MIN);
         let end = self.variant_end(header)?;
-        Ok(usize::from(end) - usize::from(start) + 1)
+
+        // The end can be read from the record (`INFO/END`) and precede the start.
+        usize::from(end)
+            .checked_sub(usize::from(start))
+            .map(|n| n + 1)
+            .ok_or_else(|| io::Error::new(io::ErrorKind::InvalidData, "invalid variant end"))
     }
 
     /// Resolves the variant end position.
